@@ -9,6 +9,9 @@ B. Scoping: random nestings (depth <= 3) of in / with / let / if (cached conditi
    probes before, inside and after every block; expected values from a scope-stack evaluator over the generator's own
    structure.
 C. Callables: by name in a tag -> called; in an expression -> passed uncalled.
+   The try tag in every form: handlers naming the class / a base class / another class, in every order, with or without a
+   handler for everything, else part, try / finally, failures inside and outside binding blocks, failures handled by an
+   enclosing tag.
 D. Templates re-entered from inside blocks that shadow their defaults.   E. Objects that gain an attribute while rendering.
 F. Realisations of the sources (real classes only; the model knows one kind of object and one kind of mapping): every kind
    of Python object (attributes in the instance / class / base class / property / __getattr__ / slots; empty container,
@@ -29,6 +32,12 @@ G. Template objects with a history (real classes only): populations of 2-6 templ
    (munge), in every order, and are rendered in between directly (every subset of the sources) and by name from a template
    of either class; a grid (class pair x way a came back x way b came back x subset of b's lower sources x var / default set
    on a) plus random histories; expected = one {defaults, variables} record per object + the documented order.
+H. Sources that change while rendering (real classes only): templates whose tags store values in / delete values from the call
+   mapping (REQUEST.set), the dictionaries of with mapping / in mapping, and give new attributes to clients / with / in objects -
+   inside try bodies that fail afterwards (handled by default / by name / by base class / by a second handler / by an enclosing
+   tag / not at all), inside handlers, else and finally parts, inside with / in / let / if blocks and sub-templates called by
+   name; grid (enclosing block x changed source x kind of change x form of the try tag) plus random nestings; expected = one
+   plain dict per source + a list of layers pushed and popped by the block structure alone.
 Correspondence: the programs of A-D on the Lean interpreter model (results + call traces).
 """
 import itertools
@@ -124,6 +133,12 @@ def precedence_items(r, tier):
 class Raised(Exception):
     def __init__(self, cls):
         self.cls = cls
+
+
+# the classes the generated templates raise -> the names an except tag can use for them
+B_BASES = {'KeyError': ['KeyError', 'LookupError', 'Exception'], 'IndexError': ['IndexError', 'LookupError', 'Exception'],
+           'ValueError': ['ValueError', 'Exception'], 'ZeroDivisionError': ['ZeroDivisionError', 'ArithmeticError', 'Exception'],
+           'TypeError': ['TypeError', 'Exception']}
 
 
 class Scope:
@@ -227,16 +242,33 @@ class Scope:
                     self.run(b[2])
                 self.frames.pop()
             elif k == 'try':
-                # whatever the body had bound when it raised is gone in the handler and after the tag
+                # whatever the body had bound when it raised is gone in the handler and after the tag; the handler: the first
+                # one that names the class of the exception or one of its base classes, or has no name; none: the exception
+                # goes on to the enclosing tags
                 mark, depth = len(self.out), len(self.frames)
                 try:
                     self.run(b[1])
                 except Raised as e:
-                    del self.out[mark:]
                     del self.frames[depth:]
+                    handler = next((hb for nm, hb in b[2] if nm == '' or nm in B_BASES[e.cls]), None)
+                    if handler is None:
+                        raise
+                    del self.out[mark:]
                     self.frames.append({'error_type': {'s': e.cls}})
-                    self.run(b[2][0][1])
+                    self.run(handler)
                     self.frames.pop()
+                else:
+                    if b[3] is not None:
+                        self.run(b[3])
+            elif k == 'tryfin':
+                depth = len(self.frames)
+                try:
+                    self.run(b[1])
+                except Raised:
+                    del self.frames[depth:]
+                    self.run(b[2])
+                    raise
+                self.run(b[2])
             elif k == 'raise':
                 raise Raised(b[1])
             else:
@@ -255,7 +287,7 @@ def scoped_blocks(r, depth, counters):
     for _ in range(r.randint(1, 2)):
         if depth == 0:
             break
-        k = r.choice(['let', 'with', 'in', 'cond', 'try', 'letexpr', 'tryleak'])
+        k = r.choice(['let', 'with', 'in', 'cond', 'try', 'letexpr', 'tryleak', 'tryforms'])
         counters['n'] += 1
         tag = '%s%d' % (k[0].upper(), counters['n'])
         inner = scoped_blocks(r, depth - 1, counters)
@@ -289,6 +321,31 @@ def scoped_blocks(r, depth, counters):
             else:
                 guarded = [['let', [['a', ['e', ['lit', {'s': tag + 'a'}]]]], boom]]
             out.append(['try', probes(r) + guarded, [['', inner]], None])
+        elif k == 'tryforms':
+            # every form of the try tag: handlers that name the class, a base class, another class (in every order, with or
+            # without a handler for everything), an else part, try / finally; the body fails inside a binding block, outside
+            # one, or not at all; a failure no handler of the tag is for is handled by a tag around it
+            cls = r.choice(sorted(B_BASES))
+            boom = probes(r) + ([['raise', cls, None, [['lit', 'm']]]] if r.random() < 0.7 else [])
+            w = r.choice(['plain', 'in', 'with', 'let'])
+            if w == 'in':
+                boom = [['in', ['n', r.choice(['seq1', 'seq2'])], {}, boom, None]]
+            elif w == 'with':
+                boom = [['with', ['n', r.choice(['wo1', 'wo2'])], False, False, boom]]
+            elif w == 'let':
+                boom = [['let', [[r.choice(['a', 'b']), ['e', ['lit', {'s': tag + 'x'}]]]], boom]]
+            names = sorted({n for v in B_BASES.values() for n in v})
+            hs = [[n, [['lit', '<%s.%s:' % (tag, n)]] + probes(r) + [['lit', '>']]] for n in r.sample(names, r.randint(0, 2))]
+            if r.random() < 0.5 or not hs:
+                hs.append(['', inner])
+            else:
+                hs[-1][1] = hs[-1][1] + inner
+            t = ['try', probes(r) + boom, hs, probes(r) if r.random() < 0.4 else None]
+            if r.random() < 0.3:
+                t = ['tryfin', [t], [['lit', '<fin:']] + probes(r) + [['lit', '>']]]
+            if hs[-1][0] != '':
+                t = ['try', [t], [['', probes(r)]], None]
+            out.append(t)
         else:
             out.append(['try', [['raise', r.choice(['KeyError', 'ValueError']), None, [['lit', 'm']]]],
                         [['', inner]], None])
@@ -340,14 +397,22 @@ def _kinds(blocks):
     for b in blocks:
         if b[0] == 'raise':
             yield 'raise'
-        if b[0] in ('let', 'with', 'in', 'cond', 'try'):
+        if b[0] in ('let', 'with', 'in', 'cond', 'try', 'tryfin'):
             yield b[0]
             if b[0] == 'cond':
                 for s, body in b[1]:
                     yield from _kinds(body)
             elif b[0] == 'try':
                 yield from _kinds(b[1])
-                yield from _kinds(b[2][0][1])
+                for nm, hb in b[2]:
+                    yield 'except-default' if nm == '' else 'except-named'
+                    yield from _kinds(hb)
+                if b[3] is not None:
+                    yield 'try-else'
+                    yield from _kinds(b[3])
+            elif b[0] == 'tryfin':
+                yield from _kinds(b[1])
+                yield from _kinds(b[2])
             else:
                 yield from _kinds(b[{'let': 2, 'with': 4, 'in': 3}[b[0]]])
 
@@ -1523,6 +1588,535 @@ def history_cases(res, r, tier, out=None):
             break
 
 
+# --------------------------------------------------------------------------- H: sources that change while rendering
+#
+# Parts A-G keep every source as it was when the rendering began (part E: five fixed templates whose object gains one
+# attribute).  The property's order is about the sources as they ARE when a name is asked for: templates store values in the
+# mapping they were called with (the REQUEST.set idiom), in dictionaries that are on the namespace through `with mapping` /
+# `in mapping`, give attributes to the client / with / in objects - and they do so anywhere: inside the body of a try tag
+# that fails afterwards, inside its handler / else / finally part, inside with / in / let / if blocks, inside a sub-template
+# called by name.  A source that grows, shrinks or gets a value replaced changes what IT answers and nothing else: which
+# layers are on the namespace, and in which order, is decided by the tags alone.  Part H generates templates whose tags
+# mutate the sources (put: new name / other value, drop) at every such place, with probes before, inside and after every
+# block, and compares with a reference that keeps one plain dict per source and a list of layers pushed / popped by the
+# block structure only.
+
+H_NAMES = ['x', 'y', 'z', 'k1', 'k2']
+H_MAP_KINDS = ['dict', 'request', 'userdict', 'ordereddict', 'dict-sub']
+H_EXC = {'KeyError': ['KeyError', 'LookupError', 'Exception'], 'IndexError': ['IndexError', 'LookupError', 'Exception'],
+         'ValueError': ['ValueError', 'Exception'], 'ZeroDivisionError': ['ZeroDivisionError', 'ArithmeticError', 'Exception'],
+         'NameError': ['NameError', 'Exception'], 'TypeError': ['TypeError', 'Exception']}
+# ways the body of a block fails -> the class of the exception
+H_FAIL = {'raise-KeyError': 'KeyError', 'raise-ValueError': 'ValueError', 'raise-IndexError': 'IndexError',
+          'raise-TypeError': 'TypeError', 'var-undefined': 'KeyError', 'expr-undefined': 'NameError',
+          'expr-zero-division': 'ZeroDivisionError', 'item-undefined': 'KeyError'}
+H_FAIL_SRC = {'var-undefined': '<dtml-var no_such_name>', 'expr-undefined': '<dtml-var "no_such_name">',
+              'expr-zero-division': '<dtml-var "1/0">', 'item-undefined': '<dtml-var "_[\'no_such_name\']">'}
+
+
+class HRaised(Exception):
+    def __init__(self, cls):
+        Exception.__init__(self, cls)
+        self.cls = cls
+
+
+class HObj:
+    """an object whose attributes are the names it defines"""
+
+    def __init__(self, label, d):
+        self.__dict__.update(d)
+        self._label = label
+
+    def __repr__(self):
+        return '<HObj %s>' % self._label
+
+
+def h_put(h, k, v):
+    """test-world helper the templates call: store v under k in the source h.  An object only GAINS attributes (the layer
+    of an object remembers the attribute values it has served, by design of the unchanged library)"""
+    if isinstance(h, HObj):
+        if not hasattr(h, k):
+            setattr(h, k, v)
+    else:
+        h[k] = v
+    return ''
+
+
+def h_drop(h, k):
+    if not isinstance(h, HObj):
+        try:
+            del h[k]
+        except KeyError:
+            pass
+    return ''
+
+
+def h_make_map(kind, d):
+    import collections
+    if kind == 'dict':
+        return dict(d)
+    if kind == 'request':
+        def set_(self, k, v):
+            self[k] = v
+        return type('Request', (dict,), {'set': set_})(d)
+    if kind == 'dict-sub':
+        return type('PlainSub', (dict,), {})(d)
+    if kind == 'userdict':
+        return collections.UserDict(d)
+    if kind == 'ordereddict':
+        return collections.OrderedDict(d)
+    raise ValueError(kind)
+
+
+# nodes:  ['probe', form, name]           form: 'missing' | 'has' | 'var' (fails with KeyError when nothing defines the name)
+#         ['put', target, key, text] ['drop', target, key]     target: a handle name | 'ITEM' (the item of the innermost in)
+#         ['with', handle, 'attr'|'map', body]  ['in', handle, 'attr'|'map', body]  ['let', [[name, text]], body]
+#         ['if', name, body, else-body]  ['try', body, [[exception names, body]], else-body | None]
+#         ['finally', body, final-body]  ['fail', way]  ['sub', index]
+
+def h_src(nodes, world):
+    out = []
+    for b in nodes:
+        k = b[0]
+        if k == 'probe':
+            out.append('[%s=' % b[2] + {'missing': '<dtml-var %s missing="-">', 'var': '<dtml-var %s>',
+                                        'has': '<dtml-if "_.has_key(\'%s\')">1<dtml-else>0</dtml-if>'}[b[1]] % b[2] + ']')
+        elif k in ('put', 'drop'):
+            t = "_['sequence-item']" if b[1] == 'ITEM' else b[1]
+            if k == 'put' and b[1] == 'R' and world['mapping_kind'] == 'request':
+                out.append('<dtml-call "R.set(\'%s\', \'%s\')">' % (b[2], b[3]))
+            elif k == 'put':
+                out.append('<dtml-call "put(%s, \'%s\', \'%s\')">' % (t, b[2], b[3]))
+            else:
+                out.append('<dtml-call "drop(%s, \'%s\')">' % (t, b[2]))
+        elif k == 'with':
+            out.append('<dtml-with %s%s>%s</dtml-with>' % (b[1], ' mapping' if b[2] == 'map' else '', h_src(b[3], world)))
+        elif k == 'in':
+            out.append('<dtml-in %s%s>(%s)</dtml-in>' % (b[1], ' mapping' if b[2] == 'map' else '', h_src(b[3], world)))
+        elif k == 'let':
+            out.append('<dtml-let %s>%s</dtml-let>' % (' '.join('%s="\'%s\'"' % (n, t) for n, t in b[1]), h_src(b[2], world)))
+        elif k == 'if':
+            out.append('<dtml-if %s>T%s<dtml-else>F%s</dtml-if>' % (b[1], h_src(b[2], world), h_src(b[3], world)))
+        elif k == 'try':
+            s = '<dtml-try>' + h_src(b[1], world)
+            for names, hb in b[2]:
+                s += '<dtml-except %s>' % ' '.join(names) + h_src(hb, world)
+            if b[3] is not None:
+                s += '<dtml-else>' + h_src(b[3], world)
+            out.append(s + '</dtml-try>')
+        elif k == 'finally':
+            out.append('<dtml-try>%s<dtml-finally>%s</dtml-try>' % (h_src(b[1], world), h_src(b[2], world)))
+        elif k == 'fail':
+            out.append(H_FAIL_SRC.get(b[1]) or '<dtml-raise %s>m</dtml-raise>' % H_FAIL[b[1]])
+        elif k == 'sub':
+            out.append('{<dtml-var sub%d>}' % b[1])
+        else:
+            raise ValueError(k)
+    return ''.join(out)
+
+
+def h_sources(world):
+    """handle -> ('attr' | 'map', {name: text})   (lists for the sequences)"""
+    h = {'D1': ('map', world['maps']['D1']), 'D2': ('map', world['maps']['D2']),
+         'O1': ('attr', world['objs']['O1']), 'O2': ('attr', world['objs']['O2'])}
+    if world['mapping'] is not None:
+        h['R'] = ('map', world['mapping'])
+    for i, c in enumerate(world['clients']):
+        h['C%d' % i] = ('attr', c)
+    for i, d in enumerate(world['obs']):
+        h['OB%d' % i] = ('attr', d)
+    for i, d in enumerate(world['rows']):
+        h['ROW%d' % i] = ('map', d)
+    return h
+
+
+class HRef:
+    """one plain dict per source; the layers: pushed and popped by the block structure and by nothing else"""
+
+    def __init__(self, prog, world):
+        import copy
+        self.prog = prog
+        self.src = {k: (kind, dict(d)) for k, (kind, d) in h_sources(copy.deepcopy(world)).items()}
+        self.seqs = {'OBS': [self.src['OB%d' % i] for i in range(len(world['obs']))],
+                     'ROWS': [self.src['ROW%d' % i] for i in range(len(world['rows']))]}
+        kw = dict(world['kw'])
+        self.stack = [('map', dict(prog['ckw']))]
+        if world['mapping'] is not None:
+            self.stack.append(self.src['R'])
+        for i in range(len(world['clients'])):
+            self.stack.append(self.src['C%d' % i])
+        if prog['vars']:
+            self.stack.append(('map', dict(prog['vars'])))
+        self.stack.append(('map', kw))
+        self.items = []
+        self.out = []
+
+    def lookup(self, name):
+        for kind, d in reversed(self.stack):
+            if name in d:
+                return d[name]
+        raise HRaised('KeyError')
+
+    def run(self, nodes):
+        for b in nodes:
+            k = b[0]
+            if k == 'probe':
+                try:
+                    v = self.lookup(b[2])
+                    if b[1] == 'has':
+                        v = '1'
+                except HRaised:
+                    if b[1] == 'var':
+                        raise
+                    v = '-' if b[1] == 'missing' else '0'
+                self.out.append('[%s=%s]' % (b[2], v))
+            elif k in ('put', 'drop'):
+                kind, d = self.items[-1] if b[1] == 'ITEM' else self.src[b[1]]
+                if k == 'put':
+                    if kind == 'map' or b[2] not in d:
+                        d[b[2]] = b[3]
+                elif kind == 'map':
+                    d.pop(b[2], None)
+            elif k == 'with':
+                self.block([(b[2], self.src[b[1]][1])], b[3])
+            elif k == 'in':
+                for layer in self.seqs[b[1]]:
+                    self.items.append(layer)
+                    self.out.append('(')
+                    try:
+                        self.block([layer], b[3])
+                    finally:
+                        self.items.pop()
+                    self.out.append(')')
+            elif k == 'let':
+                self.block([('map', dict(b[1]))], b[2])
+            elif k == 'if':
+                cache = {}
+                try:
+                    v = cache[b[1]] = self.lookup(b[1])
+                except HRaised:
+                    v = None
+                self.out.append('T' if v else 'F')
+                self.block([('map', cache)], b[2] if v else b[3])
+            elif k == 'try':
+                mark, depth = len(self.out), len(self.stack)
+                try:
+                    self.run(b[1])
+                except HRaised as e:
+                    assert len(self.stack) == depth
+                    handler = next((hb for names, hb in b[2] for n in (names or ['']) if n == '' or n in H_EXC[e.cls]), None)
+                    if handler is None:
+                        raise
+                    del self.out[mark:]
+                    self.block([('map', {'error_type': e.cls})], handler)
+                else:
+                    if b[3] is not None:
+                        self.run(b[3])
+            elif k == 'finally':
+                try:
+                    self.run(b[1])
+                finally:
+                    self.run(b[2])
+            elif k == 'fail':
+                raise HRaised(H_FAIL[b[1]])
+            elif k == 'sub':
+                t = self.prog['subs'][b[1]]
+                saved, self.out = self.out, []
+                try:
+                    # by name: the caller's current namespace with the sub-template's own defaults on top
+                    self.block([('map', dict(t['ckw']))] if t['ckw'] else [], t['nodes'])
+                    text = ''.join(self.out)
+                finally:
+                    self.out = saved
+                self.out.append('{%s}' % text)
+            else:
+                raise ValueError(k)
+
+    def block(self, layers, body):
+        self.stack.extend(layers)
+        try:
+            self.run(body)
+        finally:
+            if layers:
+                del self.stack[-len(layers):]
+
+
+def h_expected(prog, world):
+    ref = HRef(prog, world)
+    try:
+        ref.run(prog['nodes'])
+        return ('ok', ''.join(ref.out))
+    except HRaised as e:
+        return ('raise', e.cls)
+
+
+def h_render(prog, world):
+    from DocumentTemplate import HTML
+    objs = {}
+    for k, (kind, d) in h_sources(world).items():
+        if kind == 'attr':
+            objs[k] = HObj(k, d)
+        else:
+            objs[k] = h_make_map(world['mapping_kind'] if k == 'R' else world['map_kinds'].get(k, 'dict'), d)
+    kw = dict(world['kw'])
+    kw.update(objs)
+    kw.update(put=h_put, drop=h_drop, OBS=[objs['OB%d' % i] for i in range(len(world['obs']))],
+              ROWS=[objs['ROW%d' % i] for i in range(len(world['rows']))])
+    for i, t in enumerate(prog['subs']):
+        kw['sub%d' % i] = HTML(h_src(t['nodes'], world), **dict(t['ckw']))
+    main = HTML(h_src(prog['nodes'], world), **dict(prog['ckw']))
+    if prog['vars']:
+        main.var(**dict(prog['vars']))
+    clients = [objs['C%d' % i] for i in range(len(world['clients']))]
+    client = None if not clients else clients[0] if len(clients) == 1 and not world.get('client_tuple') else tuple(clients)
+    try:
+        if world['mapping'] is None:
+            return ('ok', main(client, **kw))
+        return ('ok', main(client, objs['R'], **kw))
+    except Exception as e:  # noqa
+        return ('raise', type(e).__name__, str(e)[:200])
+
+
+def h_all_probes(names=('x', 'y', 'k1')):
+    return [['probe', 'missing', n] for n in names]
+
+
+def h_world(r, dense):
+    """dense: every source defines x under its own label (a lost or left-over layer always shows), y every other one"""
+    def vals(label, i=0):
+        if dense:
+            d = {'x': label + '.x'}
+            if i % 2:
+                d['y'] = label + '.y'
+            return d
+        return {n: '%s.%s' % (label, n) for n in ('x', 'y', 'z') if r.random() < 0.45}
+    ncl = r.choice([0, 1, 1, 2])
+    w = {'kw': vals('kw', r.randint(0, 1)) if r.random() < (0.5 if dense else 0.3) else {},
+         'clients': [vals('C%d' % i, i) for i in range(ncl)], 'client_tuple': r.random() < 0.3,
+         'mapping': dict(vals('R', 1), base='R.base') if r.random() < 0.8 else None, 'mapping_kind': r.choice(H_MAP_KINDS),
+         'maps': {'D1': vals('D1', 1), 'D2': vals('D2', 0)}, 'objs': {'O1': vals('O1', 0), 'O2': vals('O2', 1)},
+         'obs': [vals('OB%d' % i, i) for i in range(r.randint(1, 3))],
+         'rows': [vals('ROW%d' % i, i + 1) for i in range(r.randint(1, 3))]}
+    w['map_kinds'] = {k: r.choice(H_MAP_KINDS) for k in ['D1', 'D2'] + ['ROW%d' % i for i in range(len(w['rows']))]}
+    return w
+
+
+H_ENCLOSING = ['none', 'with-attr', 'with-map', 'in-attr', 'in-map', 'let', 'if', 'sub', 'handler', 'else', 'finally-part',
+               'try-body']
+H_TARGETS = ['R', 'C-last', 'C-first', 'D1', 'D2', 'O1', 'ITEM', 'ROW-last']
+H_OPS = ['put-new-key', 'put-name', 'put-two', 'drop', 'put-drop']
+H_TRY = ['caught-default', 'caught-by-name', 'caught-by-base', 'second-handler', 'not-caught', 'no-failure-else',
+         'no-failure', 'finally']
+
+
+def h_grid(r, tier):
+    """enclosing block x source that is changed x kind of change x form of the try tag whose body makes the change: the
+    change is made inside the body of a try tag (which then fails, or not), probes in the body, in the handler / else /
+    finally part, after the tag inside the enclosing block, and after the enclosing block"""
+    for enc, target, op, form in itertools.product(H_ENCLOSING, H_TARGETS, H_OPS, H_TRY):
+        if tier != 'thorough' and r.random() < 0.5:
+            continue
+        w = h_world(r, True)
+        t = target
+        if target.startswith('C-'):
+            if not w['clients']:
+                w['clients'] = [{'x': 'C0.x'}]
+            t = 'C%d' % (len(w['clients']) - 1 if target == 'C-last' else 0)
+        elif target == 'R' and w['mapping'] is None:
+            w['mapping'] = {'x': 'R.x', 'base': 'R.base'}
+        elif target == 'ROW-last':
+            t = 'ROW%d' % (len(w['rows']) - 1)
+        elif target == 'ITEM' and enc not in ('in-attr', 'in-map'):
+            t = 'D1'
+        # the change: the source gets bigger / smaller / answers another value
+        muts = {'put-new-key': [['put', t, 'k1', 'new.k1']], 'put-name': [['put', t, 'y', 'new.y']],
+                'put-two': [['put', t, 'k1', 'new.k1'], ['put', t, 'k2', 'new.k2'], ['put', t, 'z', 'new.z']],
+                'drop': [['drop', t, 'x'], ['drop', t, 'base']],
+                'put-drop': [['put', t, 'k2', 'new.k2'], ['drop', t, 'x'], ['put', t, 'k1', 'new.k1']]}[op]
+        fail = [['fail', r.choice(sorted(H_FAIL))]]
+        cls = H_FAIL[fail[0][1]]
+        pr = h_all_probes()
+        body = pr + muts + h_all_probes(('x', 'y', 'z', 'k1'))
+        other = r.choice([n for n in H_EXC if n not in H_EXC[cls] and cls not in H_EXC[n]])
+        if form == 'caught-default':
+            tag = ['try', body + fail, [[[], pr + [['probe', 'missing', 'error_type']]]], None]
+        elif form == 'caught-by-name':
+            tag = ['try', body + fail, [[[other, cls], pr]], pr if r.random() < 0.5 else None]
+        elif form == 'caught-by-base':
+            tag = ['try', body + fail, [[[r.choice(H_EXC[cls][1:])], pr]], None]
+        elif form == 'second-handler':
+            tag = ['try', body + fail, [[[other], [['probe', 'missing', 'z']]], [[], pr]], None]
+        elif form == 'not-caught':
+            # the inner tag has no handler for it: the outer one handles it
+            tag = ['try', [['try', body + fail, [[[other], pr]], None]], [[[], pr]], None]
+        elif form == 'no-failure-else':
+            tag = ['try', body, [[[], pr]], pr]
+        elif form == 'no-failure':
+            tag = ['try', body, [[[cls], pr]], None]
+        else:
+            tag = ['try', [['finally', body + fail, pr]], [[[], pr]], None]
+        inner = pr + [tag] + h_all_probes(('x', 'y', 'z', 'k1', 'k2'))
+        prog = {'subs': [], 'ckw': {'x': 'ckw.x', 'z': 'ckw.z'}, 'vars': {'x': 'vars.x'} if r.random() < 0.2 else {}}
+        if enc == 'none':
+            nodes = inner
+        elif enc in ('with-attr', 'with-map'):
+            nodes = [['with', 'O1' if enc == 'with-attr' else 'D1', enc[5:], inner]]
+        elif enc in ('in-attr', 'in-map'):
+            nodes = [['in', 'OBS' if enc == 'in-attr' else 'ROWS', enc[3:], inner]]
+        elif enc == 'let':
+            nodes = [['let', [['x', 'let.x'], ['y', 'let.y']], inner]]
+        elif enc == 'if':
+            nodes = [['if', 'x', inner, []], ['with', 'D1', 'map', [['if', 'k1', [], inner]]]]
+        elif enc == 'sub':
+            prog['subs'] = [{'nodes': inner, 'ckw': {'x': 'sub.x', 'y': 'sub.y'}}]
+            nodes = [['sub', 0], ['with', 'D2', 'map', [['sub', 0]]]]
+        elif enc == 'handler':
+            nodes = [['try', [['fail', 'raise-ValueError']], [[['ValueError'], inner]], None]]
+        elif enc == 'else':
+            nodes = [['try', pr, [[[], pr]], inner]]
+        elif enc == 'finally-part':
+            nodes = [['finally', pr, inner]]
+        else:
+            nodes = [['try', [['with', 'D1', 'map', inner + [['fail', 'raise-KeyError']]]], [[['LookupError'], pr]], None]]
+        prog['nodes'] = pr + nodes + h_all_probes(('x', 'y', 'z', 'k1', 'k2'))
+        yield ('grid', enc, target, op, form), prog, w
+
+
+def h_random_nodes(r, depth, in_loop, subs_ok, may_fail):
+    out = [['probe', r.choice(['missing', 'missing', 'has']), r.choice(H_NAMES)] for _ in range(r.randint(1, 2))]
+    targets = ['R', 'R', 'C0', 'C1', 'D1', 'D2', 'O1', 'O2', 'OB0', 'ROW0', 'ROW0'] + (['ITEM', 'ITEM'] if in_loop else [])
+
+    def mutation():
+        t = r.choice(targets)
+        if r.random() < 0.7:
+            return ['put', t, r.choice(H_NAMES), 'put%d.%s' % (r.randint(0, 99), t)]
+        return ['drop', t, r.choice(H_NAMES + ['base'])]
+    for _ in range(r.randint(1, 3)):
+        k = r.choice(['mut', 'mut', 'mut', 'with-attr', 'with-map', 'in-attr', 'in-map', 'let', 'if', 'try', 'try', 'try',
+                      'finally', 'sub', 'fail', 'probe-var'])
+        if k == 'mut':
+            out.append(mutation())
+        elif k == 'fail':
+            if may_fail:
+                out.append(['fail', r.choice(sorted(H_FAIL))])
+        elif k == 'probe-var':
+            if may_fail:
+                out.append(['probe', 'var', r.choice(H_NAMES)])
+        elif depth == 0:
+            out.append(mutation())
+        elif k in ('with-attr', 'with-map'):
+            out.append(['with', r.choice(['O1', 'O2'] if k == 'with-attr' else ['D1', 'D2']), k[5:],
+                        h_random_nodes(r, depth - 1, in_loop, subs_ok, may_fail)])
+        elif k in ('in-attr', 'in-map'):
+            out.append(['in', 'OBS' if k == 'in-attr' else 'ROWS', k[3:], h_random_nodes(r, depth - 1, True, subs_ok, may_fail)])
+        elif k == 'let':
+            out.append(['let', [[n, 'let%d.%s' % (depth, n)] for n in r.sample(H_NAMES, r.randint(1, 2))],
+                        h_random_nodes(r, depth - 1, in_loop, subs_ok, may_fail)])
+        elif k == 'if':
+            out.append(['if', r.choice(H_NAMES), h_random_nodes(r, depth - 1, in_loop, subs_ok, may_fail),
+                        h_random_nodes(r, depth - 1, in_loop, subs_ok, may_fail)])
+        elif k == 'try':
+            body = h_random_nodes(r, depth - 1, in_loop, subs_ok, True)
+            if r.random() < 0.7:
+                body.append(r.choice([['fail', r.choice(sorted(H_FAIL))], ['probe', 'var', 'k2']]))
+            hs, default = [], False
+            for _ in range(r.randint(1, 2)):
+                names = [] if (not default and r.random() < 0.5) else r.sample(sorted({b for v in H_EXC.values() for b in v}), r.randint(1, 2))
+                default = default or not names
+                hs.append([names, h_random_nodes(r, depth - 1, in_loop, subs_ok, may_fail) + [['probe', 'missing', 'error_type']]])
+            # a handler without names is the last one
+            hs.sort(key=lambda h: not h[0])
+            if not default and not may_fail:
+                hs.append([[], [['probe', 'missing', 'error_type']]])
+            out.append(['try', body, hs, h_random_nodes(r, depth - 1, in_loop, subs_ok, may_fail) if r.random() < 0.3 else None])
+        elif k == 'finally':
+            out.append(['finally', h_random_nodes(r, depth - 1, in_loop, subs_ok, may_fail),
+                        h_random_nodes(r, 0, in_loop, False, may_fail)])
+        elif subs_ok:
+            out.append(['sub', r.randint(0, 1)])
+        out.append(['probe', 'missing', r.choice(H_NAMES)])
+    return out
+
+
+def h_random_program(r):
+    def vals(label, p):
+        return {n: '%s.%s' % (label, n) for n in ('x', 'y', 'z') if r.random() < p}
+    # failures that nothing handles end the rendering: most programs are written without them outside try bodies
+    may_fail = r.random() < 0.2
+    return {'nodes': h_random_nodes(r, r.choice([1, 2, 2, 3]), False, True, may_fail),
+            'subs': [{'nodes': h_random_nodes(r, 1, False, False, may_fail), 'ckw': vals('sub0', 0.4)},
+                     {'nodes': h_random_nodes(r, 2, False, False, may_fail), 'ckw': vals('sub1', 0.4)}],
+            'ckw': vals('ckw', 0.7), 'vars': vals('vars', 0.1)}
+
+
+def h_shape(nodes):
+    """which changes / failures / sub-template calls occur inside which kind of block"""
+    out = set()
+
+    def walk(nodes, inside):
+        for b in nodes:
+            if b[0] in ('put', 'drop'):
+                out.add('%s>%s:%s' % (inside, b[0], b[1][:1]))
+            elif b[0] in ('fail', 'sub'):
+                out.add('%s>%s' % (inside, b[0]))
+            elif b[0] == 'try':
+                walk(b[1], 'try')
+                for names, hb in b[2]:
+                    walk(hb, 'except')
+                walk(b[3] or [], 'else')
+            elif b[0] == 'finally':
+                walk(b[1], 'try-f')
+                walk(b[2], 'finally')
+            elif b[0] == 'if':
+                walk(b[2], 'if')
+                walk(b[3], 'if')
+            elif b[0] in ('with', 'in'):
+                walk(b[3], b[0] + '-' + b[2])
+            elif b[0] == 'let':
+                walk(b[2], 'let')
+    walk(nodes, '')
+    return tuple(sorted(out))
+
+
+def h_fix_world(prog, w):
+    """the handles a program uses exist in the world"""
+    while len(w['clients']) < 2:
+        w['clients'].append({})
+    if w['mapping'] is None:
+        w['mapping'] = {'base': 'R.base'}
+    return w
+
+
+def changing_source_cases(res, r, tier, out=None):
+    """part H on the real classes; failures go to res.oracle_fail (or `out`)"""
+    fails = res.oracle_fail if out is None else out
+
+    def one(key, prog, world):
+        exp = h_expected(prog, world)
+        got = h_render(prog, world)
+        res.evaluations += 1
+        res.nt(('H',) + key)
+        res.count('part=H')
+        res.count('H:expected-' + (exp[0] if exp[0] == 'ok' else exp[1]))
+        if got[:2] != exp:
+            fails.append({'case': {'part': 'H', 'key': key, 'source': h_src(prog['nodes'], world),
+                                   'sub_templates': [[h_src(t['nodes'], world), t['ckw']] for t in prog['subs']],
+                                   'construction': {'keywords': prog['ckw'], 'vars': prog['vars']}, 'world': world},
+                          'what': 'sources changed while rendering (put(h, k, v): h[k] = v / setattr of a new attribute; '
+                                  'drop(h, k): del h[k]; handles: R call mapping, C<i> clients, D<i> / ROW<i> mappings, O<i> / OB<i> '
+                                  'objects): the layers the tags push and pop, searched innermost first, give %r; the engine '
+                                  'gives %r' % (exp, got)})
+    for key, prog, world in h_grid(r, tier):
+        one(key, prog, world)
+    for i in range(300 if tier == 'quick' else 6000):
+        prog = h_random_program(r)
+        for j in range(3):
+            world = h_fix_world(prog, h_world(r, r.random() < 0.3))
+            one(('random', h_shape(prog['nodes']), world['mapping_kind'], len(world['clients'])), prog, world)
+        if len(fails) > 20:
+            break
+
+
 # --------------------------------------------------------------------------- driver
 
 def check(res, items, have_driver):
@@ -1596,14 +2190,28 @@ def run(res, tier, have_driver):
                 'under subsets of the sources and by name from a template of either class: grid (class pair x 9 x 9 ways the two '
                 'came back x subsets of the lower sources x var / default set on the other template) + random histories; expected '
                 'from one {defaults, variables} record per object and the documented order; '
+                'H (real classes only): sources that change while rendering - put(h, k, v) / REQUEST.set(k, v) / drop(h, k) on the '
+                'call mapping (dict, dict subclass with set(), UserDict, OrderedDict), on dictionaries used by with mapping / in '
+                'mapping (on the namespace or not), new attributes on clients / with objects / in items / the current sequence-item, '
+                'new names, names other sources define, several at once, deletions - made in the body of a try tag that then fails '
+                '(raise of 4 classes, undefined name in var / expression / _[..], division by zero) and is handled by the default '
+                'handler / by name / by a base class / by a second handler / by an enclosing try tag, or does not fail (with / '
+                'without else), or is a try / finally; the tag stands at top level, in with / with mapping / in / in mapping / let / '
+                'if / a sub-template called by name (twice, under different namespaces) / a handler / an else part / a finally part / '
+                'a binding block inside another try body: grid of %d combinations (quick: a random half) + random nestings '
+                '(depth <= 3) of all these tags with changes and failures anywhere, each under 3 worlds; probes (var missing=, '
+                '_.has_key, plain var) before, inside and after every block; expected from a reference that keeps one plain dict '
+                'per source and a list of layers pushed and popped by the block structure alone; '
                 'left out: a call mapping that is false as an object (see partial); non-trivial = '
                 'distinct (part, kind, subset / block kinds / form / place / realisation) keys' % (
-                    len(ATTR_KINDS), len(MAP_KINDS), len(VALUE_KINDS)))
+                    len(ATTR_KINDS), len(MAP_KINDS), len(VALUE_KINDS),
+                    len(H_ENCLOSING) * len(H_TARGETS) * len(H_OPS) * len(H_TRY)))
     items = all_items(r, tier, 600 if tier == 'quick' else 8000)
     runs = check(res, items, have_driver)
     dynamic_cases(res)
     source_kind_cases(res, common.rng('C02-F'), tier)
     history_cases(res, common.rng('C02-G'), tier)
+    changing_source_cases(res, common.rng('C02-H'), tier)
     res.exhaustive = True
     for i in (5, len(runs) // 2, len(runs) - 1):
         c, plan, impl, m = runs[i]
@@ -1611,10 +2219,15 @@ def run(res, tier, have_driver):
     res.partial.append('part F leaves out call mappings that are false as objects (len() == 0) but answer m[name] (dict subclass '
                        'with __missing__, lazy record): the unchanged String.__call__ does `if mapping: push(mapping)` and never '
                        'consults them; the same kinds are covered as with / in mappings, where they are consulted')
+    res.partial.append('part H: an object on the namespace only GAINS attributes while rendering (no attribute gets another value or '
+                       'is deleted): the layer of an object (InstanceDict) remembers the values it has served for as long as the '
+                       'layer lives, by design of the unchanged library; mappings are changed in every way')
     res.assumptions += ['interpreter model validated (not verified) against the real classes',
                         'part F (kinds of objects / mappings / false values) is oracle-only: not represented in the Lean model',
                         'part G (template objects with a history) is oracle-only; a shallow copy (copy.copy, state moved without '
                         'copying) takes the place of its original in the population (it shares its members with it)',
+                        'part H (sources that change while rendering) is oracle-only: the model has no values with side effects; the '
+                        'changes are made by two helper functions of the test world (put / drop) or the mapping\'s own set()',
                         'no security guard installed (guards: C05)']
 
 
@@ -1624,6 +2237,7 @@ def search_more(res, tier):
     check(res2, all_items(r, 'thorough', 3000), False)
     source_kind_cases(res2, common.rng('C02-F-more'), 'thorough')
     history_cases(res2, common.rng('C02-G-more'), 'thorough')
+    changing_source_cases(res2, common.rng('C02-H-more'), 'thorough')
     return res2.oracle_fail
 
 
